@@ -36,6 +36,16 @@ func init() {
 		generators[p] = append(generators[p], GenSession)
 	}
 	generators["C11"] = []genFn{genC11Mix}
+	generators["C09"] = []genFn{genC09Mix}
+}
+
+// C09 is mostly about hostile input, but "no client input ... can make the process panic" also covers what
+// conformant clients do at awkward moments: one run in three comes from the session generator (all fault classes).
+func genC09Mix(prop string, seed uint64, thorough bool) *Scenario {
+	if splitmix64(seed^0xc09)%3 == 0 {
+		return GenSession(prop, seed, thorough)
+	}
+	return GenHostile(prop, seed, thorough)
 }
 
 // C11 also looks at what raw (non-conformant) clients do to the request discipline: every request the server
